@@ -600,7 +600,8 @@ GA_COMPONENTS = ("ga", "nsga2")
 def obligations(tier):
     obs = []
     quick_single = ["select_real", "select_integer", "select_binary", "pheno", "pheno_copy", "spawn", "wrappers", "tiled", "sus", "axis", "outcross", "cfg_subset", "cfg_real", "cfg_integer", "cfg_mate", "twoway", "twowaydh", "hillclimb", "ga", "select", "jitter"]
-    all_single = [c for c in COMP if not c.startswith("twin") and (c not in OBJ or c.startswith("pheno"))]
+    # (the four-way DH cross with two markers exceeds the path budget when executed twice)
+    all_single = [c for c in COMP if not c.startswith("twin") and (c not in OBJ or c.startswith("pheno")) and c != "fourwaydh"]
     singles = quick_single if tier == "quick" else all_single
     for c in singles:
         obs.append(Repro(prog=[c]))
